@@ -93,6 +93,19 @@ def plane_transform_rule(cx):
 def plane_intersection_distance_rule(cx):
     from rules.C19 import plane3_rules
     plane3_rules(cx)
+    # the blended normal / direction of a station inside an edge is the SLERP of the two vertex vectors by the station's fraction: a rotation-equivariant
+    # blend (interpolating heading angles has a branch cut on the -x axis: the blended normal flips when the frame is turned)
+    for fn, acc in (('geom2::curve2::CurveStation2::interpolated_surface_point', 'normal'), ('geom2::curve2::CurveStation2::interpolated_direction_point', 'direction')):
+        bb_ = cx.fn(fn)
+        if bb_:
+            r_ = cx.retval(bb_)
+            e_ = find(f'(call *SurfacePoint::new (field point (param self)) (call Unit::slerp (call *CurveStation2::{acc} _) (call *CurveStation2::{acc} _) (field fraction (param self))))', r_)
+            cx.ob('EXPR', f'{fn.split("::")[-1]}:slerp', e_ is not None and not bb_.calls('f64::atan2'),
+                  f'{fn.split("::")[-1]}: the blended {acc} is slerp(previous vertex {acc}, next vertex {acc}, fraction) at the station point', where=bb_.file, found=r_)
+    # the surface-normal fallback of the deviation functions is taken under an ABSOLUTE 1e-6 test on the offset (shared with C16/C02: a threshold scaled by the distance
+    # of the point from the origin makes the signed deviation depend on where the part sits in the frame)
+    from rules.C16 import deviation_fallback_rules
+    deviation_fallback_rules(cx)
     b = cx.fn('geom3::plane3::Plane3::intersection_distance')
     if not b:
         return
